@@ -274,7 +274,9 @@ class TypeParameter(AbstractType):
         t = self.bound
         if t.is_type_var():
             return t.get_bound_rec(factory)
-        if not t.has_type_variables():
+        if not t.has_type_variables() or factory is None:
+            # has_bound_of() asks for the enclosed type variables without a
+            # factory; it does not need a type variable-free bound.
             return t
         # If the bound is a parameterized type that contains other type
         # variables, we have to convert this type into an equivalent type
